@@ -88,6 +88,16 @@ class SrvUnderTest(object):
         self.srv = servers.Srv(kind, family, self.fx, pool=self.user_pool)
         self.gate = gate
         self.in_gate = [0]
+        # connections the serving loop has taken from the listener and handed over (to the request pool / handler):
+        # counted at the server object's own boundary, so that "accepted before close" is observed, not timed
+        self.accepted = [0]
+        server = self.srv.server
+        orig_process = server.process_request
+
+        def counted_process_request(request, client_address):
+            self.accepted[0] += 1
+            return orig_process(request, client_address)
+        server.process_request = counted_process_request
         log = self.fx.log
         run = self
 
@@ -563,20 +573,30 @@ def lifecycle(ctx, rng, cell, family, lc):
             except BaseException as ex:  # noqa
                 ok = "raised %s" % type(ex).__name__
             flyers.append(ok)
+        accepted_before = sut.accepted[0]
         ths = [threading.Thread(target=flyer, args=(i,), name="vf-client-flyer%d" % i) for i in range(n_in)]
         for t in ths:
             t.daemon = True
             t.start()
+        # the scenario needs `busy` requests inside the gate and all n_in connections ACCEPTED by the serving loop
+        # (observed at process_request) before the close sequence starts; if the machine does not get there, the
+        # scenario is not judged
         t0 = time.monotonic()
-        while sut.in_gate[0] < busy and time.monotonic() - t0 < 10:
+        while (sut.in_gate[0] < busy or sut.accepted[0] < accepted_before + n_in) and time.monotonic() - t0 < 60:
             time.sleep(0.002)
+        if sut.in_gate[0] < busy or sut.accepted[0] < accepted_before + n_in:
+            ctx.unsure("in-flight scenario not established: %d/%d in the gate, %d/%d accepted"
+                       % (sut.in_gate[0], busy, sut.accepted[0] - accepted_before, n_in))
+            gate.set()
+            lifecycle_close(ctx, sut, case, ops, label)
+            return
         if inflight == "queued":
-            time.sleep(0.15)             # the accept loop takes the remaining connections and queues them
+            time.sleep(0.05)             # (the accepted connections are being queued by the serving loop)
         release = gate.set
     ok = lifecycle_close(ctx, sut, case, ops, label, release)
     if inflight and ok:
         for t in ths:
-            t.join(10)
+            t.join(60)
         ctx.count("judged:in-flight-replies", len(flyers))
         if flyers != [True] * len(ths):
             ctx.violate("in-flight-request-lost-at-close:" + cell[0], case, {"replies": flyers})
